@@ -32,6 +32,23 @@ namespace bloc
 {
 #define IMAGINARY_TO_COMPLEX(i) std::complex<Numeric>((i).a, (i).b)
 
+/* integer power by squaring, exp >= 0; computed modulo 2^64 (going through a double loses
+ * the low bits from 2^53 and is undefined beyond the integer range) */
+static Integer ipow(Integer base, Integer exp)
+{
+  uint64_t r = 1;
+  uint64_t b = static_cast<uint64_t>(base);
+  uint64_t e = static_cast<uint64_t>(exp);
+  while (e != 0)
+  {
+    if (e & 1)
+      r *= b;
+    b *= b;
+    e >>= 1;
+  }
+  return static_cast<Integer>(r);
+}
+
 OpEXPExpression::~OpEXPExpression()
 {
   if (arg2)
@@ -101,7 +118,17 @@ Value& OpEXPExpression::value(Context& ctx) const
       {
         if (a2.isNull() || a1.isNull())
           return LVAL2(Value(Value::type_integer), a1, a2);
-        Value val(Integer(std::pow(*a1.integer(), *a2.integer())));
+        Integer e = *a2.integer();
+        if (e >= 0)
+        {
+          /* exact, wrapping around like every integer operation */
+          Value val(ipow(*a1.integer(), e));
+          return LVAL2(val, a1, a2);
+        }
+        Numeric d = std::pow(*a1.integer(), e);
+        if (!(d >= -9223372036854775808.0 && d < 9223372036854775808.0))
+          throw RuntimeError(EXC_RT_OUT_OF_RANGE);
+        Value val(static_cast<Integer>(d));
         return LVAL2(val, a1, a2);
       }
       case Type::IMAGINARY:
